@@ -2099,20 +2099,30 @@ func (w *Wallet) RenameAccount(scope waddrmgr.KeyScope, account uint32, newName 
 		return err
 	}
 
-	var props *waddrmgr.AccountProperties
 	err = walletdb.Update(w.db, func(tx walletdb.ReadWriteTx) error {
 		addrmgrNs := tx.ReadWriteBucket(waddrmgrNamespaceKey)
-		err := manager.RenameAccount(addrmgrNs, account, newName)
-		if err != nil {
-			return err
-		}
+		return manager.RenameAccount(addrmgrNs, account, newName)
+	})
+	if err != nil {
+		return err
+	}
+
+	// The manager reports the new name once the rename has been committed.
+	var props *waddrmgr.AccountProperties
+	err = walletdb.View(w.db, func(tx walletdb.ReadTx) error {
+		addrmgrNs := tx.ReadBucket(waddrmgrNamespaceKey)
+		var err error
 		props, err = manager.AccountProperties(addrmgrNs, account)
 		return err
 	})
-	if err == nil {
-		w.NtfnServer.notifyAccountProperties(props)
+	if err != nil {
+		log.Errorf("Cannot fetch account properties for notification "+
+			"after account rename: %v", err)
+		return nil
 	}
-	return err
+	w.NtfnServer.notifyAccountProperties(props)
+
+	return nil
 }
 
 // NextAccount creates the next account and returns its account number.  The
